@@ -21,7 +21,9 @@ RULE = (
     "Oracle: with the same fault the asynchronous run delivers the same items, then raises that very "
     "planned object (identity), and - for iterator tools - its whole interleaved event log equals the "
     "reference's (so nothing is used after the fault and the fault is not deferred); aggregations: "
-    "no pull/call event after the fault. Non-trivial: a fault at a position >= 2 of the merged use list "
+    "no pull/call event after the fault. close-faults-* shards: a source whose own aclose() raises a planned "
+    "exception (any of the 7 types) when a tool is closed after j items or ends by itself - that very object "
+    "must reach the consumer. Non-trivial: a fault at a position >= 2 of the merged use list "
     "(an item was already delivered or another resource was used before). One evaluation = one injected run."
 )
 ASSUMPTIONS = [
@@ -181,8 +183,75 @@ def check_groupby(case):
     return {"evaluations": max(n, 1), "nontrivial": nontrivial, "labels": {"fault-runs": n}}
 
 
+# ---- errors raised by a source's own aclose() -------------------------------------------------
+
+
+@st.composite
+def close_fault_cases(draw, tier):
+    name = draw(st.sampled_from([t for t in ALL if t not in ("tee", "iter_sentinel", "cycle")]))
+    case = draw(base_case(name, max_len=4, max_src=3))
+    for s_ in case["srcs"]:
+        s_["fl"] = draw(st.sampled_from(["aclass", "aplain"]))
+        s_["cfault"] = draw(st.sampled_from(EXC_NAMES))
+    if name == "chain_from_iterable":
+        case["params"]["outer"]["fl"] = "aclass"
+    for spec in case["fns"].values():
+        spec["fl"] = draw(st.sampled_from(["def", "async"]))
+    total = sum(len(s_["items"]) for s_ in case["srcs"])
+    case["take"] = draw(st.integers(0, total + 2))
+    return case
+
+
+def check_close_fault(case):
+    """a planned exception raised by source.aclose() must reach the consumer (it is never swallowed)"""
+    from ..core import build, planned_name
+    from ..driver import run, loop_mode, close_orphans
+
+    tool = case["tool"]
+    b = build(case, "a")
+    received = []
+
+    async def scenario():
+        t = b.tool
+        if t.kind == "agg":
+            try:
+                await t.make_a(b.S, b.F, b.P, b.V)
+            except BaseException as exc:  # noqa: B902
+                received.append(exc)
+            return
+        out = t.make_a(b.S, b.F, b.P, b.V)
+        for _ in range(case["take"]):
+            try:
+                await out.__anext__()
+            except StopAsyncIteration:
+                break
+            except BaseException as exc:  # noqa: B902
+                received.append(exc)
+                break
+        closer = getattr(out, "aclose", None)
+        if closer is not None:
+            try:
+                await closer()
+            except BaseException as exc:  # noqa: B902
+                received.append(exc)
+
+    with loop_mode(b.ctx, "hooks"):
+        expect_return(run(b.ctx, scenario()), f"C06/{tool}")
+        close_orphans(b.ctx)
+    for src in b.srcs:
+        if getattr(src, "close_raised", False) and not any(e is src.close_fault for e in received):
+            raise Violation(f"C06/{tool}/error-from-source-aclose-swallowed",
+                            f"{src.name}.aclose() raised {src.close_fault!r} but the consumer received "
+                            f"{[repr(e)[:60] for e in received]} take={case['take']}")
+    raised = sum(1 for src in b.srcs if getattr(src, "close_raised", False))
+    return {"evaluations": 1, "nontrivial": ["x"] if raised else [], "labels": {"close-raised": raised}}
+
+
 def shards(tier):
     return [
+        Shard(f"close-faults-{i}", check_close_fault, strategy=close_fault_cases(tier), n=700,
+              nontrivial=lambda c: False, thorough_mult=20) for i in range(4)
+    ] + [
         Shard("groupby", check_groupby, strategy=groupby_cases(tier), n=300, nontrivial=lambda c: False,
               thorough_mult=20),
     ] + [
